@@ -1053,8 +1053,20 @@ func straceLayer(r *lib.Run, t *testing.T) {
 			{"unlinkat:error=EACCES:when=1"},
 		}
 		if r.Quick() {
-			rng.Shuffle(len(specs), func(a, b int) { specs[a], specs[b] = specs[b], specs[a] })
-			specs = specs[:8]
+			// the watermark / cleanup path (openat + renameat of the watermark, unlinkat of obsolete
+			// files) only exists in scripts with more than 256 prunes: there its three faults are
+			// always injected; the rest is a seeded sample
+			pruneHeavy := i%6 == 0 || i%6 == 1 || i%6 == 4
+			var keep [][]string
+			if pruneHeavy {
+				keep = append(keep, specs[9:]...)
+			}
+			rest := specs[:9]
+			if !pruneHeavy {
+				rest = specs
+			}
+			rng.Shuffle(len(rest), func(a, b int) { rest[a], rest[b] = rest[b], rest[a] })
+			specs = append(keep, rest[:8-len(keep)]...)
 		}
 		for _, s := range specs {
 			fjobs = append(fjobs, faultJob{i, s})
